@@ -12,7 +12,7 @@ import (
 
 func panicRules() []*Rule {
 	return []*Rule{
-		{ID: "PANIC", Props: []string{"C05", "C16", "C18"}, Min: 150,
+		{ID: "PANIC", Props: []string{"C05", "C16", "C18"}, Min: 400,
 			Doc: "every panic-capable instruction (index, slice, non-comma-ok type assertion, explicit panic, integer division, make with a computed size, byte-order reads) in an API-reachable function is discharged on every path reaching it by facts from the path's branch conditions, definitions, checked callee contracts and field invariants",
 			Run: runPanic},
 	}
